@@ -44,6 +44,8 @@ def sma(x, p, r=4, running=True):
         if any(v is None for v in w):
             break
         if any(_bad(v) for v in w):
+            # the running update keeps rounding while a singular point is inside the window
+            drift += 0.5 * 10.0**-r + 100.0 * 4 * EPS
             out[i] = UNC()
             continue
         acc = B(0.0)
